@@ -34,17 +34,18 @@ import (
 //	stall_pre      read the request, then nothing at all until the peer goes away
 //	raw            write Raw verbatim, then close
 type Plan struct {
-	Kind    string            `json:"kind"`
-	Status  int               `json:"status,omitempty"`
-	Chunked bool              `json:"chunked,omitempty"`
-	N       int               `json:"n,omitempty"`
-	K       int               `json:"k,omitempty"`
-	CT      string            `json:"ct,omitempty"`
-	Body    string            `json:"body,omitempty"` // explicit body instead of tokens
-	Chunks  [][]byte          `json:"-"`              // explicit chunk list instead of tokens (each written separately)
-	Raw     string            `json:"raw,omitempty"`
-	Hdr     map[string]string `json:"hdr,omitempty"`
-	GapMs   int               `json:"gap_ms,omitempty"` // pause between tokens
+	Kind      string            `json:"kind"`
+	Status    int               `json:"status,omitempty"`
+	Chunked   bool              `json:"chunked,omitempty"`
+	N         int               `json:"n,omitempty"`
+	K         int               `json:"k,omitempty"`
+	CT        string            `json:"ct,omitempty"`
+	Body      string            `json:"body,omitempty"` // explicit body instead of tokens
+	Chunks    [][]byte          `json:"-"`              // explicit chunk list instead of tokens (each written separately)
+	Raw       string            `json:"raw,omitempty"`
+	Hdr       map[string]string `json:"hdr,omitempty"`
+	GapMs     int               `json:"gap_ms,omitempty"`     // pause between tokens
+	TailBytes int               `json:"tail_bytes,omitempty"` // Body only: its last n bytes are written separately, 40 ms later
 	// Gate, when non-nil, is consulted before each token i (0-based) is written: the backend
 	// blocks until the function returns (used for causally gated streaming, C18)
 	Gate func(i int) `json:"-"`
@@ -550,6 +551,10 @@ func (b *Backend) execute(c net.Conn, r *Recv, p Plan) bool {
 		}
 	} else if p.Body != "" {
 		toks = []string{p.Body}
+		if p.TailBytes > 0 && len(p.Body) > p.TailBytes {
+			// the last TailBytes arrive on their own, after the reader has drained what came before
+			toks = []string{p.Body[:len(p.Body)-p.TailBytes], p.Body[len(p.Body)-p.TailBytes:]}
+		}
 	} else {
 		for i := 0; i < p.N; i++ {
 			toks = append(toks, Token(b.Name, r.Attempt, i))
@@ -595,6 +600,9 @@ func (b *Backend) execute(c net.Conn, r *Recv, p Plan) bool {
 		}
 		if p.GapMs > 0 && i > 0 {
 			time.Sleep(time.Duration(p.GapMs) * time.Millisecond)
+		}
+		if p.TailBytes > 0 && i > 0 {
+			time.Sleep(40 * time.Millisecond)
 		}
 		var err error
 		if p.Chunked {
